@@ -238,7 +238,7 @@ class C15(Check):
                   'wrappers are parse on a fresh object; parse(toString v) = canon v (equal tree) for every tree of null, booleans, '
                   '32/64-bit integers, NUL-free strings, lists and maps with distinct NUL-free keys (layers: unescape(escape s) = s, atoll(printf z) = z); '
                   'the string tokenizer = RFC 8259 on valid literals (escapes, surrogate pairs, UTF-8); stripComments on the C string inside the '
-                  'String (bytes before the first 0 byte) = a five-state reference machine for every input, keeps every line break, is the '
+                  'String (bytes before the first 0 byte) = a five-state reference machine for every input (which agrees with a grammar of comments and literals), keeps every line break, is the '
                   'identity on texts without a slash, is never longer than its input, and a second transcription with every src[k] read and '
                   'every *(dest++) write checked against the two buffers (data.length()+1 bytes each) never leaves them. The model is tied to '
                   'the code by running the extracted model, the extracted spec and the ASan/UBSan build on the same inputs (parse results, error '
@@ -254,8 +254,9 @@ class C15(Check):
                   'theorem judges them): a raw CR / LF / CR LF inside a string literal is accepted, counted as a line break and dropped from the '
                   'value; an escape \\u0000 puts a 0 byte into the String; an unknown escape keeps its backslash; a String with an embedded 0 '
                   'byte is stripped as the C string before that byte. The reference strip machine of JsonSpec.v is a trusted specification with '
-                  'the same five states as the code (its consequences keeps-line-breaks / identity-without-slash / never-longer are proved, a '
-                  'grammar-style characterisation is not). After a successful call on a reused Parser the error getters still show the '
+                  'the same five states as the code; it is cross-checked against a grammar-style definition (JsonSpec.strips: plain bytes, string '
+                  'literals, line comments up to the line break, block comments whose line breaks stay) by stripComments_follows_comment_grammar '
+                  '(soundness: every cut of a text by the grammar is what the machine produces; that every text has a cut is not proved). After a successful call on a reused Parser the error getters still show the '
                   'previous failure (theorem parser_error_fields states it; not part of the property). '
                   'Trusted: Coq kernel, JsonSpec.v (position_inside, reference_strip_from, in_class/value_eq/canon), extraction + OCaml '
                   'driver, harness (it compares the answers of a reused Parser / non-empty target with those of fresh ones itself), generators. '
